@@ -109,9 +109,9 @@ HASH_CONFIGS = {
     'equator-120': ([F(0), F(0)], F(120), F(20), None),
     'equator-120-seam': ([F(0), F(0)], F(120), F(20), 'seam-narrow'),
     'equator-40-seam': ([F(0), F(5)], F(40), F(10), 'seam'),
-    'band-40': ([F(-10), F(10)], F(40), F(15), None),
+    'band-40': ([F(-10), F(10)], F(40), F(15), 'seam'),       # (all RA: over the 1700 s budget)
     'polar-30': ([F(80), F(85)], F(30), F(5), None),
-    'three-60': ([F(0), F(20), F(-20)], F(60), F(25), None),
+    'three-60': ([F(0), F(20), F(-20)], F(60), F(25), 'seam'),
 }
 
 
